@@ -15,6 +15,8 @@ open Dashu.Props.C07
 #print axioms print_parse_round_trip
 #print axioms print_parse_round_trip_unsigned
 #print axioms le_bytes_round_trip
+#print axioms ubig_bytes_model
 #print axioms signed_bytes_round_trip
+#print axioms ibig_bytes_model
 #print axioms chunks_round_trip
 #print axioms chunks_zero_panics
